@@ -200,8 +200,35 @@ def run(chk, tier):
             if v == "Str":
                 chk.expect(mult(b1) == 1, "unit-width", v, "byte_len", "s.len()", txt)
             else:
-                ok = "Add 1" in txt and "BitAnd Not(1)" in txt.replace("!1", "Not(1)")
-                chk.expect(ok, "unit-width", v, "byte_len", "sum(len + 1) & !1", txt)
+                # structurally: <the arm's collection>.iter().map(|x| <length of x as written> + 1).sum() & !1 — the length of each value as it is
+                # stored (s.len() / da|tm|dt_byte_len(x)), not of a trimmed or re-rendered copy
+                bind = H.pat_bindings(a1[i1[0]][0]) if i1 else []
+                e = H.peel(b1)
+                ok = False
+                detail = txt
+                if H.kind(e) == "bin" and e[2] == "BitAnd" and H.kind(H.peel(e[4])) == "un" and H.peel(e[4])[2] == "Not" and H.int_lit(H.peel(e[4])[3]) == 1:
+                    names = []
+                    n_ = H.peel(e[3])
+                    clos = None
+                    while H.kind(n_) == "mcall":
+                        names.append(n_[3])
+                        if n_[3] == "map" and n_[5]:
+                            clos = H.peel(n_[5][0])
+                        n_ = H.peel(n_[4])
+                    root = H.path_of(n_)
+                    per = None
+                    if clos is not None and H.kind(clos) == "closure":
+                        cb = H.peel(clos[4])
+                        if H.kind(cb) == "bin" and cb[2] == "Add" and H.int_lit(cb[4]) == 1:
+                            t_ = H.peel(cb[3])
+                            if H.kind(t_) == "mcall" and t_[3] == "len" and H.kind(H.peel(t_[4])) == "path":
+                                per = "len"
+                            elif H.kind(t_) == "call" and re.search(r"::(da|tm|dt)_byte_len$", H.callee(t_) or ""):
+                                per = (H.callee(t_) or "").split("::")[-1]
+                    want_per = {"Strs": "len", "Date": "da_byte_len", "Time": "tm_byte_len", "DateTime": "dt_byte_len"}.get(v)
+                    ok = list(reversed(names)) == ["iter", "map", "sum"] and root in bind and per == want_per
+                    detail = {"chain": list(reversed(names)), "root": root, "per-value": per}
+                chk.expect(ok, "unit-width", v, "byte_len", "(<values>.iter().map(|x| stored_len(x) + 1).sum()) & !1", detail)
                 cs = [c.split("::")[-1] for c, _ in H.calls(b2) if c]
                 chk.expect("encode_collection_delimited" in cs, "unit-width", v, "encode", "encode_collection_delimited", cs)
     # encode_collection_delimited: n-1 separators, returns accumulated count
